@@ -60,6 +60,11 @@ func run(dir string, stdin *string, args ...string) Result {
 	defer cancel()
 	cmd := exec.CommandContext(ctx, Bin(), args...)
 	cmd.Dir = dir
+	// the environment of an interactive session: a narrow terminal, a locale with a decimal comma,
+	// another time zone, colour preferences - what a command does is described by its help text and
+	// its options, none of this may change it
+	cmd.Env = append(os.Environ(), "COLUMNS=80", "LINES=24", "TERM=xterm-256color", "LANG=fr_FR.UTF-8", "LC_ALL=fr_FR.UTF-8",
+		"LC_NUMERIC=fr_FR.UTF-8", "TZ=Pacific/Auckland", "NO_COLOR=1", "CLICOLOR=0", "PAGER=cat")
 	if stdin != nil {
 		cmd.Stdin = strings.NewReader(*stdin)
 	}
@@ -303,4 +308,60 @@ func AuxLayout(name, content string) string {
 		content = strings.TrimSuffix(strings.TrimSuffix(content, "\n"), "\r")
 	}
 	return content
+}
+
+// TipFile lays a list of tip names out as a tip file: "lines" = one name per line; "commas" = all
+// names on one line; "long" = one line in which names that are in no tree ("zzpad<i>", "_" runs)
+// push the name names[straddle%len] across the byte offset boundary (a multiple of bufio's
+// 4096-byte buffer); "exact" = one line without end of line whose length is exactly boundary bytes.
+func TipFile(names []string, layout string, boundary, straddle int) string {
+	switch layout {
+	case "commas":
+		return strings.Join(names, ",") + "\n"
+	case "long":
+		if len(names) == 0 {
+			return "\n"
+		}
+		k := straddle % len(names)
+		target := names[k]
+		var b strings.Builder
+		for i, n := range names {
+			if i != k {
+				b.WriteString(n + ",")
+			}
+		}
+		// the target starts 1..len-1 bytes before the boundary (a one-byte name ends on it)
+		before := len(target) - 1
+		if before < 1 {
+			before = 1
+		}
+		start := boundary - 1 - (straddle/7)%before
+		for i := 0; b.Len() < start; i++ {
+			pad := fmt.Sprintf("zzpad%d,", i)
+			if rest := start - b.Len(); rest < len(pad)+2 {
+				pad = strings.Repeat("_", rest-1) + "," // never a tip name
+			}
+			b.WriteString(pad)
+		}
+		b.WriteString(target + ",zzpadlast\n")
+		return b.String()
+	}
+	if layout == "exact" {
+		// one line without end of line whose length is exactly Boundary bytes (names, then names
+		// that are in no tree)
+		text := strings.Join(names, ",")
+		for i := 0; len(text) < boundary; i++ {
+			pad := fmt.Sprintf(",zzpad%d", i)
+			if rest := boundary - len(text); rest < len(pad)+3 {
+				pad = "," + strings.Repeat("_", rest-1)
+			}
+			text += pad
+		}
+		return text
+	}
+	text := ""
+	for _, n := range names {
+		text += n + "\n"
+	}
+	return text
 }
